@@ -200,3 +200,69 @@ def deribit_world(S, instruments=(("I0", "CALL", "open"),), n_asks=2, n_bids=2, 
             avg_buy_price=S.dec(f"{tag}pos_{name}_avg_buy", 0, 10), buy_amount=S.dec(f"{tag}pos_{name}_bought", 0, 10 ** 7),
             avg_sell_price=S.dec(f"{tag}pos_{name}_avg_sell", 0, 10), sell_amount=S.dec(f"{tag}pos_{name}_sold", 0, 10 ** 7))
     return World(broker=broker, market=market, token=token, actions=actions, rows=rows, data=data)
+
+
+# ------------------------------------------------------------------------------------------------ GMX v1 (GLP)
+from demeter.gmx import GmxMarket
+
+GMX_TOKENS = {"WETH": TokenInfo("WETH", 18), "WAVAX": TokenInfo("WAVAX", 18), "USDC": TokenInfo("USDC", 6)}
+
+
+@native
+def gmx_world(S, tokens=("WETH", "WAVAX"), tag=""):
+    """Broker + GmxMarket with an arbitrary pool state: GLP supply, AUM (30 decimals), prices (30 decimals), per-token USDG
+    amounts and weights, total USDG, bar interval — all symbolic.  Well-formedness: supply > 0, AUM >= 10^12 (one USDG unit),
+    prices > 0, weights >= 0 with a positive total, USDG amounts >= 0."""
+    toks = [GMX_TOKENS[n] for n in tokens]
+    actions = []
+    broker = Broker(record_action_callback=actions.append)
+    market = GmxMarket(MarketInfo("gmx", MarketTypeEnum.gmx_v1), toks)
+    broker.add_market(market)
+    d = {"glp": S.dec(f"{tag}glp_supply", 1, 10 ** 30), "aum": S.dec(f"{tag}aum", 10 ** 12, 10 ** 42),
+         "glp_price": S.dec(f"{tag}glp_price", 0, 10 ** 6, lo_strict=True), "usdg": S.int(f"{tag}usdg_supply", 0, 10 ** 30),
+         "interval": S.int(f"{tag}interval", 0, 10 ** 18)}
+    for t in toks:
+        n = t.name.lower()
+        d[f"{n}_price"] = S.dec(f"{tag}{n}_price", 10 ** 24, 10 ** 37)
+        d[f"{n}_usdg"] = S.int(f"{tag}{n}_usdg", 0, 10 ** 30)
+        d[f"{n}_weight"] = S.int(f"{tag}{n}_weight", 0, 10 ** 6)
+    if "wavax_price" not in d:
+        d["wavax_price"] = S.dec(f"{tag}wavax_price", 10 ** 24, 10 ** 37)
+    market._market_status = MarketStatus(T0, pd.Series(d, dtype=object))
+    market._price_status = pd.Series({t.name: S.dec(f"{tag}{t.name}_usd", 0, 10 ** 7, lo_strict=True) for t in toks}, dtype=object)
+    market.glp_amount = S.dec(f"{tag}glp_held", 0, 10 ** 12)
+    market.reward = S.dec(f"{tag}reward", 0, 10 ** 12)
+    for t in toks:
+        broker._assets[t] = Asset(t, S.dec(f"{tag}wallet_{t.name}", 0, 10 ** 12))
+    return World(broker=broker, market=market, tokens={t.name: t for t in toks}, actions=actions, data=d)
+
+
+# ------------------------------------------------------------------------------------------------ GMX v2 (GM)
+from demeter.gmx import GmxV2Market
+from demeter.gmx._typing2 import GmxV2Pool, GmxV2MarketStatus
+from demeter.gmx.gmx_v2 import GmxV2PoolStatus
+
+GM_LONG, GM_SHORT = TokenInfo("WETH", 18), TokenInfo("USDC", 6)
+
+
+@native
+def gmx2_world(S, virtual=True, tag=""):
+    """Broker + GmxV2Market with an arbitrary pool row (floats, idealised as reals): token amounts, virtual inventory (or none),
+    pool value, GM supply, impact pool, prices.  Well-formedness: amounts >= 0, pool value > 0, supply > 0, prices > 0,
+    at least one token in the pool."""
+    actions = []
+    broker = Broker(record_action_callback=actions.append)
+    market = GmxV2Market(MarketInfo("gm", MarketTypeEnum.gmx_v2), GmxV2Pool(GM_LONG, GM_SHORT, GM_LONG))
+    broker.add_market(market)
+    d = {"longAmount": S.flt(f"{tag}longAmount", 0, 10 ** 9), "shortAmount": S.flt(f"{tag}shortAmount", 0, 10 ** 12),
+         "virtualSwapInventoryLong": S.flt(f"{tag}virtualLong", 0, 10 ** 9) if virtual else None,
+         "virtualSwapInventoryShort": S.flt(f"{tag}virtualShort", 0, 10 ** 12) if virtual else None,
+         "poolValue": S.flt(f"{tag}poolValue", 0, 10 ** 13, lo_strict=True), "marketTokensSupply": S.flt(f"{tag}gmSupply", 0, 10 ** 13, lo_strict=True),
+         "impactPoolAmount": S.flt(f"{tag}impactPool", 0, 10 ** 9), "longPrice": S.flt(f"{tag}longPrice", 0, 10 ** 6, lo_strict=True),
+         "shortPrice": S.flt(f"{tag}shortPrice", 0, 10 ** 3, lo_strict=True), "indexPrice": S.flt(f"{tag}indexPrice", 0, 10 ** 6, lo_strict=True)}
+    market._market_status = GmxV2MarketStatus(T0, pd.Series(d, dtype=object))
+    market._price_status = pd.Series({"WETH": S.dec(f"{tag}WETH_usd", 0, 10 ** 6, lo_strict=True), "USDC": S.dec(f"{tag}USDC_usd", 0, 10 ** 3, lo_strict=True)}, dtype=object)
+    market.amount = S.flt(f"{tag}gm_held", 0, 10 ** 12)
+    broker._assets[GM_LONG] = Asset(GM_LONG, S.dec(f"{tag}wallet_WETH", 0, 10 ** 9))
+    broker._assets[GM_SHORT] = Asset(GM_SHORT, S.dec(f"{tag}wallet_USDC", 0, 10 ** 12))
+    return World(broker=broker, market=market, actions=actions, data=d, long=GM_LONG, short=GM_SHORT)
